@@ -151,7 +151,7 @@ func init() {
 	register(&Rule{ID: "PANIC.ifacecmp", Floor: 1,
 		Doc: "comparing two interface values panics when their dynamic type is not comparable: the payload of a Variant can be a slice, so payloads may be compared with ==/!= only where the tag excludes Array",
 		Run: rulePanicIfaceCmp})
-	register(&Rule{ID: "PANIC.progress", Floor: 2,
+	register(&Rule{ID: "PANIC.progress", Floor: 1,
 		Doc: "main tokenizer loop: no token value carried over from a previous iteration is used (a skipped token must not be re-tested when the next character has no state), and every way around the loop either reads a character or holds a fresh non-empty token",
 		Run: rulePanicProgress})
 	register(&Rule{ID: "PANIC.nilres", Floor: 30,
@@ -619,11 +619,44 @@ func rulePanicProgress(c *Ctx) []*Obligation {
 							continue
 						}
 						if inLoop[p2.Block()] {
-							walk(p2)
+							// the value flows on only along edges where it is not known to be nil
+							flows := false
+							for i, e := range p2.Edges {
+								if e != v {
+									continue
+								}
+								nilOnEdge := false
+								for _, g := range guardsOnEdge(p2.Block().Preds[i], p2.Block()) {
+									cond, truth := g.atom()
+									if bo, ok := cond.(*ssa.BinOp); ok && isNilConst(bo.Y) && bo.X == v && (bo.Op == token.EQL) == truth {
+										nilOnEdge = true
+									}
+								}
+								if !nilOnEdge {
+									flows = true
+								}
+							}
+							if flows {
+								walk(p2)
+							}
 						}
 						continue
 					}
 					if inLoop[r.Block()] {
+						// a use under `token == nil` sees no token of an earlier iteration; the nil test itself is no use
+						if bo, ok := r.(*ssa.BinOp); ok && (isNilConst(bo.X) || isNilConst(bo.Y)) {
+							continue
+						}
+						nilHere := false
+						for _, g := range guardsAt(r.Block()) {
+							cond, truth := g.atom()
+							if bo, ok := cond.(*ssa.BinOp); ok && isNilConst(bo.Y) && bo.X == v && (bo.Op == token.EQL) == truth {
+								nilHere = true
+							}
+						}
+						if nilHere {
+							continue
+						}
 						useIn = r
 						return
 					}
@@ -636,79 +669,38 @@ func rulePanicProgress(c *Ctx) []*Obligation {
 				o.ok(key, c.Pos(phi.Pos()), "no value from a previous iteration is used inside the loop")
 			}
 		}
-		// (b) every way around the loop reads a character or holds a fresh non-empty token
-		var readBlock *ssa.BasicBlock
-		var emptyTest *ssa.BasicBlock
-		for b := range inLoop {
-			for _, in := range b.Instrs {
-				if ci, ok := in.(ssa.CallInstruction); ok && ci.Common().IsInvoke() && ci.Common().Method.Name() == "Read" {
-					readBlock = b
-				}
-			}
-			if ifi, ok := b.Instrs[len(b.Instrs)-1].(*ssa.If); ok {
-				if bo, ok := ifi.Cond.(*ssa.BinOp); ok && bo.Op == token.EQL {
-					if s, isS := constString(bo.Y); isS && s == "" {
-						if call, isC := bo.X.(*ssa.Call); isC {
-							if _, isV := c.callTo(call, "tokenizers", "Token", "Value"); isV {
-								emptyTest = b
-							}
-						}
-					}
-				}
-			}
-		}
+		// (b) every way around the loop makes progress - derived from the exhaustive model of the loop:
+		// a scenario that goes around (skip) must have moved the scanner (a state's non-empty token, by
+		// SCAN.balance, stands for at least one consumed character; the fallback reads one)
 		key := c.FuncKey(fn) + "#cycle-advances"
-		if readBlock == nil || emptyTest == nil {
-			o.bad(key, c.Pos(fn.Pos()), "the loop has no fallback Read() guarded by an empty-token test: a state returning an empty token makes no progress")
-			continue
-		}
-		// enumerate acyclic paths header → back edge
-		bad := ""
-		var path []*ssa.BasicBlock
-		var dfs func(b *ssa.BasicBlock)
-		nPaths := 0
-		dfs = func(b *ssa.BasicBlock) {
-			if bad != "" || nPaths > 5000 {
-				return
+		bad, undec, nSkip := "", "", 0
+		names := c.constNames("tokenizers", "")
+		for _, run := range c.mainLoopRuns() {
+			if run.res.outcome == "opaque" {
+				undec = run.res.why
+				continue
 			}
-			path = append(path, b)
-			defer func() { path = path[:len(path)-1] }()
-			for _, s := range b.Succs {
-				if s == h {
-					nPaths++
-					okPath := false
-					for i, pb := range path {
-						if pb == readBlock {
-							okPath = true
-						}
-						if pb == emptyTest && i+1 < len(path) && path[i+1] == emptyTest.Succs[1] {
-							okPath = true
-						}
-					}
-					if !okPath {
-						bad = "a way around the loop neither reads a character nor passes the non-empty-token test"
-					}
-					continue
-				}
-				if !inLoop[s] {
-					continue
-				}
-				onPath := false
-				for _, pb := range path {
-					if pb == s {
-						onPath = true
-					}
-				}
-				if !onPath {
-					dfs(s)
+			if run.res.outcome != "skip" {
+				continue
+			}
+			nSkip++
+			moved := false
+			for _, op := range run.res.ops {
+				if op == "Read" || (op == "NextToken" && !run.sc.tokNil && !run.sc.tokEmpty && !run.sc.stateNil) {
+					moved = true
 				}
 			}
+			if !moved && bad == "" {
+				bad = fmt.Sprintf("the loop goes around without consuming anything [%s, %s]: it never terminates", run.sc.group(names), optSetString(run.sc.opts))
+			}
 		}
-		dfs(h)
-		if bad != "" {
-			o.bad(key, c.Pos(h.Instrs[0].Pos()), bad)
-		} else {
-			o.ok(key, c.Pos(h.Instrs[0].Pos()), fmt.Sprintf("%d acyclic ways around the loop: each reads a character or holds a non-empty token", nPaths))
+		switch {
+		case undec != "":
+			o.undecided(key, c.Pos(fn.Pos()), undec)
+		case bad != "":
+			o.bad(key, c.Pos(fn.Pos()), bad)
+		default:
+			o.ok(key, c.Pos(fn.Pos()), fmt.Sprintf("%d skipping scenario(s), each consumed at least one character", nSkip))
 		}
 	}
 	return o.list
